@@ -39,14 +39,18 @@ def call(agg, J: torch.Tensor):
     return out, err, (None if w is None else as64(w))
 
 
-def shape_ok(out, J: torch.Tensor):
-    """None if `out` is a 1-d tensor with one entry per column in the dtype of the input, else a description."""
+def shape_ok(out, J: torch.Tensor, finite: bool = True):
+    """None if `out` is a 1-d tensor with one entry per column in the dtype of the input - and finite when the input is (every
+    definitional equality the checks compare with is false for a nan, but `nan > tolerance` is False too: non-finite outputs are
+    caught here, once, instead of slipping through the comparisons) -, else a description."""
     if not isinstance(out, torch.Tensor):
         return f"not a tensor: {type(out).__name__}"
     if out.ndim != 1 or out.shape[0] != J.shape[1]:
         return f"shape {list(out.shape)} for input {list(J.shape)}"
     if out.dtype != J.dtype:
         return f"dtype {out.dtype} for input {J.dtype}"
+    if finite and not bool(torch.isfinite(out).all()) and bool(torch.isfinite(J).all()):
+        return f"non-finite output {out.detach().flatten()[:6].tolist()} for a finite input"
     return None
 
 
